@@ -3,6 +3,7 @@
 /verif/seeded/<ID>-<k>/ and records which checks report it (by applying it to /repo, running every
 registered check once, and reverting)."""
 import sys, json, os, shutil, subprocess, re
+REPO = os.environ.get('REPO', '/repo')
 pid, k, result = sys.argv[1], sys.argv[2], sys.argv[3]
 srcroot = sys.argv[4] if len(sys.argv) > 4 else '/tmp/seedout'
 dstk = sys.argv[5] if len(sys.argv) > 5 else k
@@ -13,12 +14,12 @@ os.makedirs(dst, exist_ok=True)
 for f in os.listdir(src):
     if f.endswith('.diff') or f.endswith('_test.go') or f == 'meta.json':
         shutil.copy(os.path.join(src, f), os.path.join(dst, f if not f.endswith('_test.go') else f + '.txt'))
-if subprocess.run(["git", "-C", "/repo", "apply", os.path.join(src, "patch.diff")]).returncode != 0:
-    subprocess.run(["git", "-C", "/repo", "apply", "-C1", os.path.join(src, "patch.diff")], check=True)
+if subprocess.run(["git", "-C", REPO, "apply", os.path.join(src, "patch.diff")]).returncode != 0:
+    subprocess.run(["git", "-C", REPO, "apply", "-C1", os.path.join(src, "patch.diff")], check=True)
 try:
-    out = subprocess.run(['/verif/bin/tmverif', '-prop', 'all', '-no-evidence'], capture_output=True, text=True).stdout
+    out = subprocess.run(['/verif/bin/tmverif', '-repo', REPO, '-prop', 'all', '-no-evidence'], capture_output=True, text=True).stdout
 finally:
-    subprocess.run(['git', '-C', '/repo', 'checkout', '--', '.'], check=True)
+    subprocess.run(['git', '-C', REPO, 'checkout', '--', '.'], check=True)
 caught = sorted(set(re.findall(r'^  (?:VIOLATION|UNDECIDED|FLOOR): (C\d+\.R\d+) key=(.*?) at ', out, re.M)))
 m = json.load(open(os.path.join(dst, 'meta.json')))
 m['breaks_property'] = dstpid
